@@ -204,6 +204,17 @@ def run_tool(flavour, tool, schema_name, schema_text, perturb=None, args=(), cpu
         obs = {"rc": rc if rc >= 0 else None, "sig": -rc if rc < 0 else None, "timed_out": timed,
                "stdout": scrub(out.decode("latin-1"), top)[-3000:], "stderr": scrub(err.decode("latin-1"), top)[-6000:],
                "tree": tree, "n_files": len(tree), "prior_rcs": [r[0] for r in runs[:-1]]}
+        # "no generated file contains a name that is not a function of the schema text": where the tool was BUILT is such a name
+        needle = (os.path.join(REPO, "src") + "/").encode()
+        hits = []
+        for rel in sorted(tree):
+            try:
+                with open(os.path.join(cwd, rel), "rb") as fh:
+                    if needle in fh.read():
+                        hits.append(rel)
+            except OSError:
+                pass
+        obs["embeds_build_path"] = hits[:8]
         for rel in want_bytes:
             p = os.path.join(cwd, rel)
             if os.path.exists(p):
